@@ -174,7 +174,9 @@ class MITMProxyEventManager:
             flow.metadata['needed_proxy_caps'] = []
             for known_cap_name, (known_cap_type, known_cap_url) in cap_data.region().caps.items():
                 if known_cap_type == CapType.PROXY_ONLY and known_cap_name in parsed_seed:
-                    parsed_seed.remove(known_cap_name)
+                    # Nothing stops the name from being listed more than once
+                    while known_cap_name in parsed_seed:
+                        parsed_seed.remove(known_cap_name)
                     flow.metadata['needed_proxy_caps'].append(known_cap_name)
             if flow.metadata['needed_proxy_caps']:
                 flow.request.content = llsd.format_xml(parsed_seed)
